@@ -12,6 +12,7 @@ import (
 	"net"
 	"os"
 	"sync"
+	"sync/atomic"
 	"time"
 
 	"github.com/aldas/go-modbus-client/packet"
@@ -59,6 +60,7 @@ type lifeScenario struct {
 	CallbackWork time.Duration
 	ReadTimeout  time.Duration
 	AddrCaller   bool
+	Race         bool
 }
 
 type acceptObs struct {
@@ -166,19 +168,23 @@ type lifeHandler struct {
 	ops  map[uint16]*lifeOp
 	seed uint64
 	n    int
+	race bool
 }
 
 func (h *lifeHandler) Handle(ctx context.Context, req packet.Request) (packet.Response, error) {
 	b := req.Bytes()
 	tid, unit, pdu, _ := UnframeTCP(b)
-	h.out.mu.Lock()
-	h.n++
-	seq := h.n
-	h.out.HandlerStart[tid] = h.s.Step
-	op := h.ops[tid]
-	h.out.mu.Unlock()
-	h.s.Logf("handle-start tid=%d", tid)
-	id := fmt.Sprintf("handler#%d", seq)
+	op := h.ops[tid] // read-only after set-up
+	id := ""
+	if !h.race {
+		h.out.mu.Lock()
+		h.n++
+		seq := h.n
+		h.out.HandlerStart[tid] = h.s.Step
+		h.out.mu.Unlock()
+		h.s.Logf("handle-start tid=%d", tid)
+		id = fmt.Sprintf("handler#%d", seq)
+	}
 	var work time.Duration
 	if op != nil {
 		work = op.Work
@@ -198,9 +204,11 @@ func (h *lifeHandler) Handle(ctx context.Context, req packet.Request) (packet.Re
 	dev := NewDevice(Mix(h.seed, uint64(unit), 7))
 	dev.ReadOnly = true
 	rp := dev.Exec(pdu)
-	h.out.mu.Lock()
-	h.out.HandlerEnd[tid] = h.s.Step
-	h.out.mu.Unlock()
+	if !h.race {
+		h.out.mu.Lock()
+		h.out.HandlerEnd[tid] = h.s.Step
+		h.out.mu.Unlock()
+	}
 	return rawResp{fc: req.FunctionCode(), b: FrameTCP(tid, unit, rp)}, nil
 }
 
@@ -214,26 +222,24 @@ func lifeModelReply(seed uint64, frame []byte) []byte {
 func runLife(rc *RunCtx, sc *lifeScenario, seed uint64) *lifeOutcome {
 	s := NewSim(rc.Sched)
 	s.Tracing = rc.Tracing
+	s.Free = sc.Race
 	out := &lifeOutcome{CloseCB: map[string]int{}, CloseCBFlag: map[string]bool{}, HandlerStart: map[uint16]int{}, HandlerEnd: map[uint16]int{},
 		ClientSaw: make([]string, len(sc.Clients)), ClientRecv: make([][]byte, len(sc.Clients)), ClientConn: make([]*Conn, len(sc.Clients)),
 		IdleAtShutdown: make([]bool, len(sc.Clients))}
 	untracked := 0
-	server.SimBeforeLock = func(l *sync.RWMutex, write bool) {
-		named := s.taskOfGoroutine() != ""
-		s.BeforeLock(l, write, "server")
+	// every lock acquisition by a goroutine of the server itself (a connection goroutine) is its untrack; the counter
+	// update follows within the same scheduler step
+	s.LockObserver = func(named bool) {
 		if !named {
-			// a goroutine of the server itself (a connection goroutine): this is its untrack; the counter
-			// update follows within the same scheduler step
 			out.mu.Lock()
 			untracked++
 			out.mu.Unlock()
 		}
 	}
-	server.SimAfterLock = s.AfterLock
-	defer func() { server.SimBeforeLock, server.SimAfterLock = nil, nil }()
+	defer s.Activate()()
 
 	ln := NewListener(s, "L")
-	h := &lifeHandler{s: s, out: out, ops: map[uint16]*lifeOp{}, seed: seed}
+	h := &lifeHandler{s: s, out: out, ops: map[uint16]*lifeOp{}, seed: seed, race: sc.Race}
 	for ci := range sc.Clients {
 		for oi := range sc.Clients[ci].Ops {
 			op := &sc.Clients[ci].Ops[oi]
@@ -244,10 +250,13 @@ func runLife(rc *RunCtx, sc *lifeScenario, seed uint64) *lifeOutcome {
 	}
 	cbSeq := 0
 	cbPark := func(label string, d time.Duration) {
-		out.mu.Lock()
-		cbSeq++
-		id := fmt.Sprintf("cb#%d", cbSeq)
-		out.mu.Unlock()
+		id := ""
+		if !sc.Race {
+			out.mu.Lock()
+			cbSeq++
+			id = fmt.Sprintf("cb#%d", cbSeq)
+			out.mu.Unlock()
+		}
 		at := time.Now().Add(d)
 		s.Park(id, label, func(now time.Time) (bool, Reason, time.Time) {
 			if !now.Before(at) {
@@ -260,6 +269,10 @@ func runLife(rc *RunCtx, sc *lifeScenario, seed uint64) *lifeOutcome {
 	adds, nAccept := 0, 0
 	if sc.Callbacks&1 != 0 {
 		srv.OnServeFunc = func(addr net.Addr) {
+			if sc.Race {
+				cbPark("OnServe", sc.OnServeWork)
+				return
+			}
 			out.mu.Lock()
 			out.ServeCalled++
 			out.mu.Unlock()
@@ -270,6 +283,9 @@ func runLife(rc *RunCtx, sc *lifeScenario, seed uint64) *lifeOutcome {
 	srv.OnErrorFunc = nil
 	if sc.Callbacks&2 != 0 {
 		srv.OnErrorFunc = func(err error) {
+			if sc.Race {
+				return
+			}
 			out.mu.Lock()
 			out.Errors = append(out.Errors, err.Error())
 			out.mu.Unlock()
@@ -286,7 +302,16 @@ func runLife(rc *RunCtx, sc *lifeScenario, seed uint64) *lifeOutcome {
 		return n
 	}
 	if sc.Callbacks&4 != 0 {
+		var raceAccepts int // touched by the accept loop only
 		srv.OnAcceptConnFunc = func(ctx context.Context, remote net.Addr, count uint64) error {
+			if sc.Race {
+				raceAccepts++
+				cbPark("OnAccept", sc.CallbackWork)
+				if sc.RejectEvery > 0 && raceAccepts%sc.RejectEvery == 0 {
+					return errors.New("rejected by firewall rule")
+				}
+				return nil
+			}
 			s.mu.Lock()
 			cl := closedServerConns()
 			s.mu.Unlock()
@@ -314,6 +339,10 @@ func runLife(rc *RunCtx, sc *lifeScenario, seed uint64) *lifeOutcome {
 	}
 	if sc.Callbacks&8 != 0 {
 		srv.OnCloseConnFunc = func(ctx context.Context, remote net.Addr, isShutdown bool) {
+			if sc.Race {
+				cbPark("OnClose", sc.CallbackWork)
+				return
+			}
 			out.mu.Lock()
 			out.CloseCB[remote.String()]++
 			out.CloseCBFlag[remote.String()] = isShutdown
@@ -328,8 +357,10 @@ func runLife(rc *RunCtx, sc *lifeScenario, seed uint64) *lifeOutcome {
 
 	ctx, cancel := context.WithCancel(context.Background())
 	defer cancel()
+	var serveRet atomic.Bool
 	s.Go("serve", true, func(tk *Task) {
 		err := srv.Serve(ctx, ln, h)
+		serveRet.Store(true)
 		out.mu.Lock()
 		out.ServeRet, out.ServeErr, out.ServeRetAt, out.ServeRetStep = true, err, s.Now(), s.Step
 		out.mu.Unlock()
@@ -363,7 +394,7 @@ func runLife(rc *RunCtx, sc *lifeScenario, seed uint64) *lifeOutcome {
 		}
 		actionDone = true
 		// give the serve call bounded time to return without any further external event
-		tk.WaitUntil("await-serve-return", func() bool { return out.ServeRet }, time.Now().Add(2*time.Second))
+		tk.WaitUntil("await-serve-return", func() bool { return serveRet.Load() }, time.Now().Add(2*time.Second))
 		if sc.Action != "cancel" && out.ShutdownErr == nil {
 			out.LateDialTried = true
 			if _, err := ln.Dial(); err != nil {
@@ -373,14 +404,7 @@ func runLife(rc *RunCtx, sc *lifeScenario, seed uint64) *lifeOutcome {
 	})
 	if sc.AddrCaller {
 		s.Go("addr-caller", true, func(tk *Task) {
-			if tk.WaitUntil("await-serving", func() bool {
-				for _, c := range ln.Conns {
-					if c.acceptedByServer {
-						return true // Serve is past its set-up and has accepted at least one connection
-					}
-				}
-				return false
-			}, time.Now().Add(time.Second)) != Ready {
+			if tk.WaitUntil("await-serving", ln.AnyAccepted, time.Now().Add(time.Second)) != Ready {
 				return
 			}
 			_ = srv.Addr()
@@ -465,11 +489,9 @@ func runLife(rc *RunCtx, sc *lifeScenario, seed uint64) *lifeOutcome {
 	_ = actionDone
 	out.Hang, out.OverStep = s.Hang, s.OverStep
 	// server-side view when the scenario is over, before the simulation is torn down
-	s.mu.Lock()
 	for _, c := range out.ClientConn {
-		out.SrvClosedAtEnd = append(out.SrvClosedAtEnd, c != nil && c.peer.closed)
+		out.SrvClosedAtEnd = append(out.SrvClosedAtEnd, c != nil && c.peer.IsClosed())
 	}
-	s.mu.Unlock()
 	s.Drain()
 	out.Panics = s.Panics
 	rc.finishFrom(s)
@@ -479,6 +501,7 @@ func runLife(rc *RunCtx, sc *lifeScenario, seed uint64) *lifeOutcome {
 func runC17(rc *RunCtx) {
 	t := rc.Scen
 	sc := genC17(t)
+	sc.Race = rc.Race
 	seed := uint64(t.Choose(1 << 30))
 	out := runLife(rc, sc, seed)
 	rc.Nontrivial = len(sc.Clients) > 0
@@ -486,6 +509,12 @@ func runC17(rc *RunCtx) {
 		"shutdown_ctx": sc.ShutdownCtx.String(), "clients": describeLifeClients(sc), "reject_every": sc.RejectEvery, "server_read_timeout": sc.ReadTimeout.String()}
 	cb := fmt.Sprintf("cb=%04b", sc.Callbacks)
 	rc.Probe(fmt.Sprintf("%s|%s", cb, sc.Action))
+	if rc.Race {
+		for _, p := range out.Panics {
+			rc.Violate("panic", "task="+p.Task, "panic in task %s: %s", p.Task, p.Value)
+		}
+		return // no functional oracle in race mode
+	}
 	checkC17(rc, sc, out, seed)
 }
 
